@@ -35,7 +35,10 @@ Ev == Traces[tid].ev
 E  == Ev[l]
 Range(s) == {s[i] : i \in 1..Len(s)}
 
-Init == O!Init /\ tid \in 1..Len(Traces) /\ l = 0 /\ memo = {} /\ keys0 = {} /\ saved0 = {} /\ args0 = {}
+\* keys0 starts with what a fresh evaluator of each configuration advertises when asked first thing
+\* (Traces[tid].nominal): the advertised keys are a function of the configuration alone
+Init == O!Init /\ tid \in 1..Len(Traces) /\ l = 0 /\ memo = {} /\ saved0 = {} /\ args0 = {}
+        /\ keys0 = {<<n.c, n.k>> : n \in Range(Traces[tid].nominal)}
 Consume ==
     /\ l < Len(Ev) /\ l' = l + 1 /\ UNCHANGED tid
     /\ O!Next
